@@ -86,7 +86,10 @@ type c19Case struct {
 	Func     int    `json:"func"`     // 0 toRFC3339 1 layoutToRFC3339 2 toEpoch 3 epochTo 4 roundtrip 5 empty 6 invalid
 	Layout   int    `json:"layout"`
 	Unit     string `json:"unit"`
-	Mut      int    `json:"mut"`
+	// Decoy: before the call under test the same function is called with the same text but other flags / zones
+	// (its result is ignored): a call's result is a function of its own arguments only.
+	Decoy bool `json:"decoy,omitempty"`
+	Mut   int  `json:"mut"`
 	MutPos   int    `json:"mut_pos"`
 }
 
@@ -236,6 +239,14 @@ func genC19(t *rapid.T) c19Case {
 		unix = hi
 	}
 	c.Unix = unix
+	edge := rapid.IntRange(0, 24).Draw(t, "edge")
+	switch edge {
+	case 0: // the very first instant of the range (Go's zero time)
+		c.Unix = time.Date(1, 1, 1, 0, 0, 0, 0, time.UTC).Unix()
+	case 1: // the very last second of the range
+		c.Unix = time.Date(9999, 12, 31, 23, 59, 59, 0, time.UTC).Unix()
+	}
+	c.Decoy = rapid.IntRange(0, 3).Draw(t, "decoy") == 0
 	c.Func = rapid.SampledFrom([]int{0, 0, 0, 1, 2, 2, 3, 4, 4, 5, 6}).Draw(t, "func")
 	c.Unit = rapid.SampledFrom([]string{"SECOND", "MILLISECOND"}).Draw(t, "unit")
 	if rapid.Bool().Draw(t, "hasFrac") {
@@ -272,6 +283,24 @@ func genC19(t *rapid.T) c19Case {
 	c.Frac = rapid.IntRange(1, 9).Draw(t, "frac")
 	c.AMPM = rapid.SampledFrom([]int{0, 0, 1, 2}).Draw(t, "ampm")
 	c.Layout = rapid.IntRange(0, len(c19Layouts)-1).Draw(t, "layout")
+	if edge <= 1 {
+		// keep every wall clock inside years 1..9999: UTC only (or a positive numeric offset for the first instant)
+		c.Nanos = 0
+		c.FromTZ, c.ToTZ = "", ""
+		if rapid.Bool().Draw(t, "edgeToUTC") {
+			c.ToTZ = "UTC"
+		}
+		c.SrcFrm, c.Src = rapid.SampledFrom([]int{0, 1}).Draw(t, "edgeSrc"), ""
+		if edge == 0 && rapid.Bool().Draw(t, "edgeOffset") {
+			c.SrcFrm, c.Src = 4, "330"
+		}
+		if c.TimeFmt == 0 && c.SrcFrm != 0 {
+			c.TimeFmt = 1
+		}
+		if edge == 1 && (c.TimeFmt == 0 || c.TimeFmt == 3 || c.TimeFmt == 5) {
+			c.TimeFmt = 1
+		}
+	}
 	c.Mut = rapid.IntRange(0, 6).Draw(t, "mut")
 	c.MutPos = rapid.IntRange(0, 40).Draw(t, "mutPos")
 	return c
@@ -627,6 +656,10 @@ func checkC19(c c19Case) obs.Result {
 		var err error
 		layoutHasTZ := false
 		if c.Func == 0 {
+			if c.Decoy {
+				_, _ = customfuncs.DateTimeToRFC3339(nil, in, "Asia/Tokyo", "America/Denver")
+				_, _ = customfuncs.DateTimeToRFC3339(nil, in, "", "")
+			}
 			out, err = customfuncs.DateTimeToRFC3339(nil, in, c.FromTZ, c.ToTZ)
 		} else {
 			L := c19Layouts[c.Layout]
@@ -661,6 +694,10 @@ func checkC19(c c19Case) obs.Result {
 				denoted = []int64{wallToUnix(shown, offMin*60)}
 			}
 			exact = true
+			if c.Decoy {
+				// same text and layout, the opposite layoutTZ flag and other zones
+				_, _ = customfuncs.DateTimeLayoutToRFC3339(nil, in, L.layout, strconv.FormatBool(!L.hasTZ), "Asia/Tokyo", "America/Denver")
+			}
 			out, err = customfuncs.DateTimeLayoutToRFC3339(nil, in, L.layout, strconv.FormatBool(L.hasTZ), c.FromTZ, c.ToTZ)
 		}
 		if err != nil {
@@ -733,6 +770,10 @@ func checkC19(c c19Case) obs.Result {
 		}
 		if len(okSecs) == 0 {
 			return obs.Result{Excluded: "shown-wall-clock-falls-in-a-dst-gap"}
+		}
+		if c.Decoy {
+			_, _ = customfuncs.DateTimeToEpoch(nil, in, "Asia/Tokyo", "SECOND")
+			_, _ = customfuncs.DateTimeToEpoch(nil, in, "", "MILLISECOND")
 		}
 		ep, err := customfuncs.DateTimeToEpoch(nil, in, cc.FromTZ, cc.Unit)
 		if err != nil {
